@@ -1623,7 +1623,7 @@ class VariablesManager:
         """Create a new group of variables indexed by k-subsets of [n]"""
 
         newgroup = WordOfIndicesVariables(self._formula, n, k, labelfmt=label,
-                                          wordtype='combinations_with_replacement')
+                                          wordtype='combinations_with_replacements')
         self._add_variable_group(newgroup)
         return newgroup
 
